@@ -2,6 +2,7 @@ package main
 
 import (
 	"fmt"
+	"math"
 	"math/rand"
 	"strings"
 	"sync"
@@ -18,9 +19,17 @@ func init() { register(&Prop{ID: "C19", Run: runC19, Gen: genC19}) }
 // slice the library returned (so that the caller can keep it, look at it again later, or hand it back
 // as the buffer of its next query).  `whole` marks an unfiltered in-bound query whose box covers the
 // bound of the tree (a listing of everything).
+//
+// `lim` is the variadic distance limit of a k-nearest query AS A SLICE: the runner passes it with
+// `lim...`, so the library receives the caller's own slice (no copy).  During the concurrent phase
+// every goroutine passes the SAME slice for the same query — a sub-slice of one limits array per case,
+// as a caller does who keeps its limits in a configuration slice shared read-only by its workers.
+// The per-goroutine contract covers result buffers only; nothing allows the library to write this one.
 type c19Query struct {
-	run, alt     func(q *quadtree.Quadtree, buf []orb.Pointer) (string, []orb.Pointer)
+	run, alt     func(q *quadtree.Quadtree, buf []orb.Pointer, lim []float64) (string, []orb.Pointer)
 	slice, whole bool
+	md           string    // limit token of a k-nearest query ("-": none; "": not a k-nearest query)
+	lim          []float64 // the shared limits slice of this query (nil: no limit)
 }
 
 func parseQuery(r *tokReader, tree orb.Bound) c19Query {
@@ -34,44 +43,42 @@ func parseQuery(r *tokReader, tree orb.Bound) c19Query {
 	switch op := r.next(); op {
 	case "f":
 		p := r.pt()
-		return c19Query{run: func(q *quadtree.Quadtree, _ []orb.Pointer) (string, []orb.Pointer) {
+		return c19Query{run: func(q *quadtree.Quadtree, _ []orb.Pointer, _ []float64) (string, []orb.Pointer) {
 			return one(q.Find(p))
-		}, alt: func(q *quadtree.Quadtree, _ []orb.Pointer) (string, []orb.Pointer) {
+		}, alt: func(q *quadtree.Quadtree, _ []orb.Pointer, _ []float64) (string, []orb.Pointer) {
 			return one(q.Matching(p, nil))
 		}}
 	case "m":
 		p := r.pt()
 		m, rr := r.int(), r.int()
-		return c19Query{run: func(q *quadtree.Quadtree, _ []orb.Pointer) (string, []orb.Pointer) {
+		return c19Query{run: func(q *quadtree.Quadtree, _ []orb.Pointer, _ []float64) (string, []orb.Pointer) {
 			return one(q.Matching(p, modFilter(m, rr)))
 		}}
 	case "k":
 		p := r.pt()
 		k, m, rr := r.int(), r.int(), r.int()
 		md := r.next()
-		qq := c19Query{slice: true, run: func(q *quadtree.Quadtree, buf []orb.Pointer) (string, []orb.Pointer) {
-			if md == "-" {
-				return many(q.KNearestMatching(buf, p, k, modFilter(m, rr)))
-			}
-			return many(q.KNearestMatching(buf, p, k, modFilter(m, rr), pf(md)))
+		if md != "-" {
+			pf(md) // a malformed token is a harness bug
+		}
+		// the limit is whatever slice the runner hands in (nil: no limit), passed on with `lim...`
+		qq := c19Query{slice: true, md: md, run: func(q *quadtree.Quadtree, buf []orb.Pointer, lim []float64) (string, []orb.Pointer) {
+			return many(q.KNearestMatching(buf, p, k, modFilter(m, rr), lim...))
 		}}
 		if m == 1 { // no filter: the KNearest wrapper is the same query
-			qq.alt = func(q *quadtree.Quadtree, buf []orb.Pointer) (string, []orb.Pointer) {
-				if md == "-" {
-					return many(q.KNearest(buf, p, k))
-				}
-				return many(q.KNearest(buf, p, k, pf(md)))
+			qq.alt = func(q *quadtree.Quadtree, buf []orb.Pointer, lim []float64) (string, []orb.Pointer) {
+				return many(q.KNearest(buf, p, k, lim...))
 			}
 		}
 		return qq
 	case "b":
 		b := orb.Bound{Min: r.pt(), Max: r.pt()}
 		m, rr := r.int(), r.int()
-		qq := c19Query{slice: true, run: func(q *quadtree.Quadtree, buf []orb.Pointer) (string, []orb.Pointer) {
+		qq := c19Query{slice: true, run: func(q *quadtree.Quadtree, buf []orb.Pointer, _ []float64) (string, []orb.Pointer) {
 			return many(q.InBoundMatching(buf, b, modFilter(m, rr)))
 		}}
 		if m == 1 {
-			qq.alt = func(q *quadtree.Quadtree, buf []orb.Pointer) (string, []orb.Pointer) {
+			qq.alt = func(q *quadtree.Quadtree, buf []orb.Pointer, _ []float64) (string, []orb.Pointer) {
 				return many(q.InBound(buf, b))
 			}
 			qq.whole = b.Min[0] <= tree.Min[0] && b.Min[1] <= tree.Min[1] && b.Max[0] >= tree.Max[0] && b.Max[1] >= tree.Max[1]
@@ -182,6 +189,45 @@ func runC19(op string, in []string) string {
 		// result slice resliced to [:0] / a fresh dirty buffer
 		g, rounds, bufMode := r.int(), r.int(), r.int()
 
+		// ONE limits array per case, shared by all goroutines: [s, l_0, s, l_1, …, s] with a sentinel s
+		// around every limit; the limited k-nearest query number j passes the sub-slice [2j+1:2j+2]
+		// (its capacity runs on to the end of the array).  The oracle pass gets private copies.
+		const limSentinel = 24680.125
+		var limWant []float64
+		limWant = append(limWant, limSentinel)
+		for i := range qs {
+			if qs[i].md != "" && qs[i].md != "-" {
+				limWant = append(limWant, pf(qs[i].md), limSentinel)
+			}
+		}
+		lims := append([]float64(nil), limWant...)
+		oracleLims := append([]float64(nil), limWant...)
+		for i, j := 0, 0; i < len(qs); i++ {
+			if qs[i].md != "" && qs[i].md != "-" {
+				qs[i].lim = lims[2*j+1 : 2*j+2]
+				j++
+			}
+		}
+		oracleLim := func(i int) []float64 { // the same position in the oracle's own array
+			if qs[i].lim == nil {
+				return nil
+			}
+			for k := range lims {
+				if &lims[k] == &qs[i].lim[0] {
+					return oracleLims[k : k+1]
+				}
+			}
+			panic("limit slice not in the array")
+		}
+		limsIntact := func(a []float64) bool {
+			for k := range a {
+				if math.Float64bits(a[k]) != math.Float64bits(limWant[k]) {
+					return false
+				}
+			}
+			return true
+		}
+
 		// The tree the goroutines will query is NEVER queried before they start: the oracle answers
 		// come from a second tree built by the same history, so that state a query writes lazily
 		// (a cache, a size hint, a pruned leaf) is not warmed up by the oracle pass.
@@ -191,9 +237,10 @@ func runC19(op string, in []string) string {
 		oracleBefore := c19Dump(oracle)
 		seq := make([]string, m)
 		for i, f := range qs {
-			seq[i], _ = f.run(oracle, nil)
+			seq[i], _ = f.run(oracle, nil, oracleLim(i))
 		}
 		oracleAfter := c19Dump(oracle)
+		argsSame := limsIntact(oracleLims) && limsIntact(lims)
 
 		// concurrent phase: G goroutines, each running all queries `rounds` times from its own offset,
 		// alternating between the *Matching methods and their wrappers, and reading Bound().
@@ -252,7 +299,7 @@ func runC19(op string, in []string) string {
 								kept = kept[:len(kept)-1]
 							}
 						}
-						got, res := f(q, buf)
+						got, res := f(q, buf, qs[i].lim) // the limits slice is shared by all goroutines
 						if got != seq[i] {
 							ok = false
 						}
@@ -274,6 +321,7 @@ func runC19(op string, in []string) string {
 		}
 		close(start)
 		wg.Wait()
+		argsSame = argsSame && limsIntact(lims)
 		after := c19Dump(q)
 		// per-goroutine result buffers: an answer is still what it was when it was returned (keptStable)
 		// and what the query answers alone (keptOracle), now that every goroutine has finished
@@ -292,21 +340,22 @@ func runC19(op string, in []string) string {
 		// and once more sequentially on the tree the goroutines used
 		late := true
 		for i, f := range qs {
-			if got, _ := f.run(q, nil); got != seq[i] {
+			if got, _ := f.run(q, nil, f.lim); got != seq[i] {
 				late = false
 			}
 			if f.alt != nil {
-				if got, _ := f.alt(q, nil); got != seq[i] {
+				if got, _ := f.alt(q, nil, f.lim); got != seq[i] {
 					late = false
 				}
 			}
 		}
+		argsSame = argsSame && limsIntact(lims) && limsIntact(oracleLims)
 		// whole-tree listings of the shared tree against those of the identically built oracle tree
 		listSame := c19Listings(q, bnd) == c19Listings(oracle, bnd)
 		afterLate := c19Dump(q)
 		oracleAfter2 := c19Dump(oracle)
-		out := append(seq, fmt.Sprintf("F %s %s %s %s %s %s %s %s %s", b2s(same), b2s(before == after && after == afterLate), b2s(before == oracleBefore),
-			b2s(oracleBefore == oracleAfter && oracleAfter == oracleAfter2), b2s(late), b2s(boundSame), b2s(keptStable), b2s(keptOracle), b2s(listSame)))
+		out := append(seq, fmt.Sprintf("F %s %s %s %s %s %s %s %s %s %s", b2s(same), b2s(before == after && after == afterLate), b2s(before == oracleBefore),
+			b2s(oracleBefore == oracleAfter && oracleAfter == oracleAfter2), b2s(late), b2s(boundSame), b2s(keptStable), b2s(keptOracle), b2s(listSame), b2s(argsSame)))
 		return strings.Join(out, " ; ")
 	})
 }
@@ -360,6 +409,16 @@ func genC19(c *Ctx) {
 		}
 		if r.Intn(2) == 0 {
 			ins(fmt.Sprintf("k %s %d 1 0 -", fpt(h.pt()), []int{85, 100, 300}[r.Intn(3)]))
+		}
+		// k-nearest WITH a distance limit (the limits slice is shared by the goroutines): through the
+		// wrapper and through the filtered method, positive, negative (acts as its absolute value) and
+		// the same limit twice
+		if r.Intn(4) != 0 {
+			lim := fb(float64(1+r.Intn(30)) / 2)
+			ins(fmt.Sprintf("k %s %d 1 0 %s", fpt(h.pt()), 1+r.Intn(12), lim))
+			if r.Intn(2) == 0 {
+				ins(fmt.Sprintf("k %s %d 2 %d %s", fpt(h.pt()), 1+r.Intn(12), r.Intn(2), []string{lim, fb(-float64(1+r.Intn(30)) / 2)}[r.Intn(2)]))
+			}
 		}
 		g := []int{2, 2, 4, 8, 16, 32}[r.Intn(6)]
 		rounds := 1 + r.Intn(8)
